@@ -20,7 +20,7 @@ from gcmstatic.conform import conform
 EXPLANATION = __doc__
 CACHES = ("_connected_subgraphs", "_edge_combinations")
 
-REF_EQ = ['''
+_REF_EQ = '''
 def automated_equation(self, G, p, root):
     prob = 0.0
     for c in self.get_connected_subgraphs(G, root):
@@ -41,7 +41,11 @@ def automated_equation(self, G, p, root):
         for n in self.get_edge_combinations(g, c):
             prob += p ** (len(g.edges()) - n) * (1 - p) ** n * interface * us
     return prob
-''']
+'''
+# the singleton component is {root} (every enumerated vertex set contains the root, C15.2), and the number of neighbours
+# of v is len(G[v]) = len(G.adj[v]) = len(list(G.neighbors(v))): all of these spell the same exponent
+REF_EQ = [_REF_EQ.replace("len(list(G.neighbors(c[0])))", d.replace("V", v))
+          for v in ("c[0]", "root") for d in ("len(list(G.neighbors(V)))", "len(G[V])", "len(G.adj[V])")]
 
 REF_US = ['''
 def get_us(self, G, root):
@@ -438,6 +442,9 @@ def run(ctx):
                 o.undecided("connectivity filter not recognised", gec)
 
     with ctx.obligation("C15.5", "enumeration skeleton: each connected superset of the root is produced exactly once", floor=4) as o:
+        if rec is None:
+            o.undecided("the recursive enumerator `_get_connected_subgraphs` no longer exists under a recognisable name", gcs)
+            return
         rsc = Scope(rec.node)
         rp = rec.params  # self, G, subgraph, possible, excluded, results, max_size
         if len(rp) < 7:
@@ -526,6 +533,13 @@ def run(ctx):
                 o.holds(gcs, ent[0], "enumeration starts from {root} with frontier N(root), excluded {root}, up to all vertices")
             else:
                 o.violated(gcs, ent[0], f"enumeration starts with ({', '.join(a)})")
+        elif not ent:
+            inlined = any(isinstance(n, ast.For) and f"{gcs.params[1]}.neighbors" in txt(n) for n in astx.walk_fn(gcs.node))
+            if inlined:
+                o.undecided("the enumeration is written inside get_connected_subgraphs: entry call not recognised", gcs)
+            else:
+                o.violated(gcs, gcs.node, f"get_connected_subgraphs never starts the enumeration (no call of self.{rec.name}): the cached list of components stays empty and "
+                                           "every motif's equation evaluates to 0")
 
 
 def _subst(expr, env):
